@@ -481,16 +481,13 @@ func tailOf(s string) string {
 	return clip(s, 3000)
 }
 
-// classOfLabel: the case family (label up to the first ':' or the first two words), so that one cause = one signature.
+// classOfLabel: the case family (first two words of the label), so that one cause = one signature.
 func classOfLabel(l string) string {
-	if i := strings.Index(l, ":"); i > 0 {
-		return l[:i]
-	}
 	f := strings.Fields(l)
 	if len(f) > 2 {
 		f = f[:2]
 	}
-	return strings.Join(f, " ")
+	return strings.TrimSuffix(strings.Join(f, " "), ":")
 }
 func postClass(msg string) string {
 	if i := strings.Index(msg, ":"); i > 0 {
